@@ -65,6 +65,18 @@ def fromIntervalsArr {V : Type} (S E : List Nat) (size : Nat) (vals : List V) (d
   let v2 := if S.head? = some 0 then v1.tail else v1
   ⟨events, v2.take (events.length - 1)⟩
 
+/-- the rule of fix 6347e85 before fix bfb8d84: the interleaved defaults were created with the dtype of `values`
+(`cast` = conversion to that dtype, e.g. truncation of 0.5 to 0), while the appended trailing default was not.
+`V` is the common result type `np.result_type(values, default_value)` in which the repaired code works. -/
+def fromIntervalsArrOld {V : Type} (cast : V → V) (S E : List Nat) (size : Nat) (vals : List V) (dflt : V) : Rle V :=
+  let pre : List Nat := if S.head? = some 0 then [] else [0]
+  let post : List Nat := if E.getLast? = some size then [] else [size]
+  let events := pre ++ interleave S E ++ post
+  let v0 := interleave (vals.map (fun _ => cast dflt)) (vals.map cast)
+  let v1 := if E.getLast? = some size then v0 else v0 ++ [dflt]
+  let v2 := if S.head? = some 0 then v1.tail else v1
+  ⟨events, v2.take (events.length - 1)⟩
+
 /-! ### specification of the npstructures run-length engine -/
 
 /-- the runs of a run-length array as records -/
